@@ -121,6 +121,10 @@ func genSpec(r *rand.Rand, ver version.Version, big bool) *sxSpec {
 	for i := 0; i < r.Intn(3); i++ {
 		sp.reqh.Add(randCase(r, "accept-"+randToken(r, 1+r.Intn(6))), randValue(r, lens[r.Intn(len(lens))]))
 	}
+	if r.Intn(16) == 0 { // a response that already has a (foreign or stale) digest header
+		dn := ver.MiceEncoding().DigestHeaderName()
+		sp.resph.Add(dn, []string{"sha-256=47DEQpj8HBSa+/TImW+5JCeuQeRkm5NMpJWZG3hSuFU=", "x", "mi-sha256-03=AAAA"}[r.Intn(3)])
+	}
 	sp.rs = []int{1, 2, 16, 16, 100, 4096, 16383, 16384}[r.Intn(8)]
 	pl := []int{0, 1, sp.rs - 1, sp.rs, sp.rs + 1, 2 * sp.rs, 3*sp.rs + 1}[r.Intn(7)]
 	if pl > 40000 {
